@@ -218,3 +218,65 @@ def tblEnum : EnumDef := { variants := [{ ident := [65] }, { ident := [66], disa
 example : ∃ t, genTable tblEnum = .ok t ∧ t.keys = [[65], [67]] ∧ t.keys.Nodup := ⟨_, rfl, rfl, by decide⟩
 
 end Strum
+
+namespace Strum
+
+/-! ### every write/read history behaves like a plain function from keys to values -/
+
+inductive TOp (α : Type)
+  | set (k : Bytes) (x : α)
+  | get (k : Bytes)
+
+/-- run a history on the generated table; `none` = a panic (index with a key that has no slot) -/
+def runTable {α : Type} (t : TableImpl) : TableVal α → List (TOp α) → Option (List α)
+  | _, [] => some []
+  | tv, .set k x :: ops =>
+    match t.set tv k x with
+    | none => none
+    | some tv' => runTable t tv' ops
+  | tv, .get k :: ops =>
+    match t.index tv k with
+    | none => none
+    | some x => (runTable t tv ops).map (x :: ·)
+
+/-- the reference map: a function updated pointwise -/
+def runSpec {α : Type} : (Bytes → α) → List (TOp α) → List α
+  | _, [] => []
+  | f, .set k x :: ops => runSpec (fun k' => if k' = k then x else f k') ops
+  | f, .get k :: ops => f k :: runSpec f ops
+
+def TOp.key {α : Type} : TOp α → Bytes
+  | .set k _ => k
+  | .get k => k
+
+/-- **Refinement to a total map**: on histories that only use enabled variants, the table answers every read
+    exactly like the reference function, whatever the order and number of writes. -/
+theorem table_refines {α : Type} (t : TableImpl) (ops : List (TOp α)) (hk : ∀ op ∈ ops, op.key ∈ t.keys) :
+    ∀ (tv : TableVal α) (f : Bytes → α), tv.length = t.keys.length → (∀ k ∈ t.keys, t.index tv k = some (f k)) →
+      runTable t tv ops = some (runSpec f ops) := by
+  induction ops with
+  | nil => intro tv f _ _; rfl
+  | cons op rest ih =>
+    intro tv f hl hf
+    have hrest : ∀ op ∈ rest, op.key ∈ t.keys := fun o ho => hk o (by simp [ho])
+    cases op with
+    | get k =>
+      have hkm : k ∈ t.keys := hk (.get k) (by simp)
+      simp only [runTable, runSpec, hf k hkm, ih hrest tv f hl hf, Option.map_some]
+    | set k x =>
+      have hkm : k ∈ t.keys := hk (.set k x) (by simp)
+      obtain ⟨tv', hs, hl'⟩ := (set_some_iff t tv hl k x).2 hkm
+      simp only [runTable, runSpec, hs]
+      apply ih hrest tv' _ hl'
+      intro k' hk'
+      rw [get_set t tv tv' k k' x hs]
+      by_cases h : k' = k
+      · simp [h]
+      · simp [h, hf k' hk']
+
+/-- starting from `from_closure(f)` -/
+theorem table_refines_from_closure {α : Type} (t : TableImpl) (f : Bytes → α) (ops : List (TOp α))
+    (hk : ∀ op ∈ ops, op.key ∈ t.keys) : runTable t (t.fromClosure f) ops = some (runSpec f ops) :=
+  table_refines t ops hk _ f (by simp [TableImpl.fromClosure]) (fun k hkm => from_closure_get t f k hkm)
+
+end Strum
